@@ -87,8 +87,7 @@ def r3(ctx, prog):
     ctx.check(R, len(links) == 1 and len(linkx) == 1, f.where(), "the block is linked once per route", key="C08.R3:links")
     # every path entry->exit passes the link of one route (exception: the asserted-impossible heap == NULL edge)
     def heap_null(lab, p, q):
-        return not any(isinstance(e, int) and pol is False and rl.cmp_parts(f, e) and rl.cmp_parts(f, e)[0] == "!=" and f.cv(rl.cmp_parts(f, e)[2]) == 0 and
-                       "heap" in f.text(rl.cmp_parts(f, e)[1]) for e, pol in cfg.facts(lab))
+        return not any(isinstance(e, int) and rl.cmp_parts(f, e) is not None and rl.fact_null(f, e, pol, lambda j: "mi_heap_t" in f.nodes[j].get("t", "")) for e, pol in cfg.facts(lab))
     w = cfg.must_pass([cfg.entry], cfg.exit_points(), lambda e: e in links or e in linkx, edge_ok=heap_null)
     ctx.check(R, w is None, f.where(), "every path links the block into one of the two lists (exception: heap == NULL, asserted impossible)", key="C08.R3:must", witness=w)
     # after the page-list link the CAS publishes tfreex built from the block
@@ -111,10 +110,10 @@ def r4(ctx, prog):
         def periodic(e, pol):
             if not isinstance(e, int):
                 return False
-            cc = rl.norm_cmp(f, e, pol)
-            return cc is not None and cc[0] == ">=" and f.mentions_field(cc[1], "generic_count") and f.cv(cc[2]) is not None
+            return rl.establishes(f, e, pol, ">=", lambda j: f.mentions_field(j, "generic_count"), rl.is_const(f))
         w = cfg.guarded(cfg.pt(c), periodic)
-        thr = [f.cv(rl.cmp_parts(f, x)[2]) for x in f.all(kind="BinaryOperator") if rl.cmp_parts(f, x) and f.mentions_field(rl.cmp_parts(f, x)[1], "generic_count")]
+        thr = sorted({f.cv(cc[2]) + (1 if cc[0] == ">" else 0) for outs in cfg.edges.values() for q_, lab in outs for e, pol in cfg.facts(lab) if isinstance(e, int)
+                      for cc in [rl.oriented(f, e, pol, lambda j: f.mentions_field(j, "generic_count"), rl.is_const(f))] if cc is not None and cc[0] in (">=", ">")})
         ctx.check(R, w is None and thr and max(thr) <= 1000, f.where(c), "drain every N generic allocations (N = %s)" % thr, key="C08.R4:generic:period", witness=w)
         resets = [a for a, l, rhs, op in f.field_stores("generic_count") if rhs is not None and f.cv(rhs) == 0]
         ctx.check(R, bool(resets), f.where(), "the counter is reset after the drain", key="C08.R4:generic:reset")
@@ -122,7 +121,7 @@ def r4(ctx, prog):
     cfg = g.cfg
     def uninit(lab, p, q):
         # the early return for NULL / uninitialised heaps
-        return not any(isinstance(e, int) and ((pol and rl.fact_null(g, e, True, rl.is_var(g, g.param_id(0)))) or
+        return not any(isinstance(e, int) and (rl.fact_null(g, e, pol, rl.is_var(g, g.param_id(0))) or
                                                ((not pol) and rl.is_call(g, g.strip(e), "mi_heap_is_initialized"))) for e, pol in cfg.facts(lab))
     w = cfg.must_pass([cfg.entry], cfg.exit_points(), rl.call_to("_mi_heap_delayed_free_all")(g), edge_ok=uninit)
     ctx.check(R, w is None, g.where(), "every collect of an initialised heap drains the delayed list", key="C08.R4:collect", witness=w)
